@@ -15,7 +15,7 @@ Canon(p, n, s, h) ==
   IF p = {} THEN h
   ELSE LET e == CHOOSE x \in p : (\A y \in p : ~EvBefore(y, x)) /\ (\A y \in p : (~EvBefore(x, y) /\ ~EvBefore(y, x)) => x.id <= y.id)
            ns == Handle(e.lp, s[e.lp], e.ty, e.pid, 0)
-           sends == Sends(e.lp, s[e.lp], e.t, e.ty, 0)
+           sends == Sends(e.lp, s[e.lp], e.t, e.ty, e.pid, 0)
            new == {[id |-> n + i - 1, lp |-> sends[i].lp, t |-> sends[i].t, ty |-> sends[i].ty, pid |-> sends[i].pid] : i \in 1..Len(sends)} IN
        Canon((p \ {e}) \cup new, n + Len(sends), [s EXCEPT ![e.lp] = ns],
              [h EXCEPT ![e.lp] = Append(@, [t |-> e.t, ty |-> e.ty, pid |-> e.pid, s |-> ns.s, cnt |-> ns.cnt])])
